@@ -224,3 +224,95 @@ impl Params {
         self.extra.get(k).map(String::as_str)
     }
 }
+
+// ------------------------------------------------------------------ blocked-executor watchdog
+//
+// In the SIM / PURE / MICRO engines nothing ever sleeps in real time (the clock is paused, there is no I/O),
+// so a harness process all of whose threads are asleep and consume no CPU for many seconds has an executor
+// thread blocked inside a poll (e.g. a lock taken twice by the connection task). That is an observation about
+// the code under test, with a /proc witness, not a wall-clock deadline: a loaded machine makes threads
+// runnable, never asleep.
+
+static CURRENT: std::sync::Mutex<String> = std::sync::Mutex::new(String::new());
+
+/// Describe what the process is executing right now (shown in the watchdog's replay record).
+pub fn set_current(s: String) {
+    if let Ok(mut g) = CURRENT.lock() {
+        *g = s;
+    }
+}
+
+fn own_tid() -> i64 {
+    std::fs::read_link("/proc/thread-self").ok().and_then(|p| p.file_name().map(|f| f.to_string_lossy().to_string())).and_then(|s| s.parse().ok()).unwrap_or(-1)
+}
+
+/// (every other thread asleep, their total CPU ticks, their number)
+fn threads_snapshot(me: i64) -> Option<(bool, u64, usize)> {
+    let mut all_sleeping = true;
+    let mut cpu = 0u64;
+    let mut n = 0usize;
+    for e in std::fs::read_dir("/proc/self/task").ok()? {
+        let e = e.ok()?;
+        let tid: i64 = e.file_name().to_string_lossy().parse().ok()?;
+        if tid == me {
+            continue;
+        }
+        let Ok(stat) = std::fs::read_to_string(e.path().join("stat")) else { continue };
+        let after = stat.rsplit_once(')')?.1;
+        let f: Vec<&str> = after.split_whitespace().collect();
+        let state = *f.first()?;
+        let ut: u64 = f.get(11)?.parse().ok()?;
+        let stime: u64 = f.get(12)?.parse().ok()?;
+        cpu += ut + stime;
+        n += 1;
+        if state != "S" {
+            all_sleeping = false;
+        }
+    }
+    Some((all_sleeping, cpu, n))
+}
+
+/// Start the watchdog thread. `quiet_secs` consecutive one-second samples with every thread asleep and no CPU
+/// time consumed => write a result file carrying one violation and end the process.
+pub fn start_block_watchdog(property: String, out: Option<String>, shard: u64, quiet_secs: u32) {
+    if cfg!(miri) {
+        return;
+    }
+    std::thread::spawn(move || {
+        let me = own_tid();
+        let mut quiet = 0u32;
+        let mut last_cpu = u64::MAX;
+        loop {
+            std::thread::sleep(std::time::Duration::from_secs(1));
+            match threads_snapshot(me) {
+                Some((true, cpu, n)) if n > 0 && cpu == last_cpu => quiet += 1,
+                Some((_, cpu, _)) => {
+                    quiet = 0;
+                    last_cpu = cpu;
+                }
+                None => quiet = 0,
+            }
+            if quiet >= quiet_secs {
+                let what = CURRENT.lock().map(|g| g.clone()).unwrap_or_default();
+                let mut st = Stats::new();
+                st.evaluations = 1;
+                st.violation(Violation {
+                    signature: "executor-thread-blocked".into(),
+                    detail: format!("every thread of the harness process was asleep and consumed no CPU time for {quiet_secs} s while executing [{what}]; nothing sleeps in real time in this engine, so the thread polling the connection task is blocked inside a poll (self-deadlock): the endpoint stopped serving and never ends"),
+                    replay: json!({"kind": "blocked-executor", "executing": what, "witness": format!("/proc/self/task: all threads in state S, utime+stime unchanged over {quiet_secs} consecutive 1 s samples")}),
+                });
+                let mut v = st.to_json(&property, "blocked-executor watchdog (see DESIGN.md 7.7)");
+                v["shard"] = json!(shard);
+                v["wall_s"] = json!(0.0);
+                let text = serde_json::to_string(&v).unwrap_or_default();
+                match &out {
+                    Some(path) => {
+                        let _ = std::fs::write(path, text);
+                    }
+                    None => println!("{text}"),
+                }
+                std::process::exit(0);
+            }
+        }
+    });
+}
